@@ -624,3 +624,253 @@ Qed.
 Definition segy_trace_offset (ext ns t : Z) : Z := 3600 + 3200 * ext + t * (240 + 4 * ns).
 Lemma minimal_reader_offset n_xl ns i ext : w_min_seek n_xl ns i = segy_trace_offset ext ns (i * n_xl) <-> ext = 0.
 Proof. unfold w_min_seek, segy_trace_offset. split; intros H; [|subst ext]; lia. Qed.
+
+(* ---------------------------------------------------------------- closed forms *)
+Lemma nth_zrange_nat n lo k : (k < n)%nat -> nth k (zrange_nat lo n) 0 = lo + Z.of_nat k.
+Proof.
+  revert lo k. induction n as [|n IH]; intros lo k H; [lia|].
+  destruct k as [|k]; cbn [zrange_nat nth]; [lia|]. rewrite IH by lia. lia.
+Qed.
+
+Lemma nth_map_zrange {A} (f : Z -> A) n k dflt : 0 <= k < n -> nth (Z.to_nat k) (map f (zrange 0 n)) dflt = f k.
+Proof.
+  intros H. rewrite (nth_indep _ dflt (f 0)) by (rewrite map_length, zrange_length; lia).
+  rewrite map_nth. f_equal. unfold zrange. rewrite nth_zrange_nat by lia. lia.
+Qed.
+
+Section Closed.
+Variable trace : Type.
+Variable zero_trace : trace.
+Variables (S : source trace) (a b c d : Z).
+Hypothesis Hw : window_ok trace S a b c d = true.
+Variables (codes : list Z) (m : mode) (bs0 bs1 : Z).
+Hypothesis Hb : 0 < bs0.
+Let C := canon_container trace zero_trace codes m bs0 bs1 S (win_geo a b c d).
+
+Lemma closed_scalars :
+  c_n_il trace C = b - a /\ c_n_xl trace C = d - c /\
+  c_origin_il trace C = s_il0 S + a * s_dil S /\ c_origin_xl trace C = s_xl0 S + c * s_dxl S /\
+  c_inc_il trace C = s_dil S /\ c_inc_xl trace C = s_dxl S /\
+  c_tracecount trace C = (b - a) * (d - c) /\ c_hel trace C = 4 * ((b - a) * (d - c)) /\
+  c_alloc trace C = (b - a) * (d - c).
+Proof.
+  destruct (window_facts trace S a b c d Hw) as (W1&W2&W3&W4&W5&W6&W7&W8).
+  unfold C, canon_container, win_geo. cbv zeta. cbn [c_n_il c_n_xl c_origin_il c_origin_xl c_inc_il c_inc_xl c_tracecount c_hel c_alloc gi0 gni gx0 gnx].
+  unfold s_ilines, s_xlines, py_norm.
+  replace (a <? 0) with false by (symmetry; apply Z.ltb_ge; lia).
+  replace (c <? 0) with false by (symmetry; apply Z.ltb_ge; lia).
+  change (1 <? 0) with false. change (0 <? 0) with false.
+  repeat split; try ring.
+  replace ((d - c) * (b - a) * 32) with (4 * ((b - a) * (d - c)) * 8) by ring. apply Z.div_mul. lia.
+Qed.
+
+(* every cell of every plane-set buffer: the sub-cube, edge-extended to the padded extents *)
+Lemma closed_cells p i x :
+  0 <= p < pad (b - a) bs0 / bs0 -> 0 <= i < bs0 -> 0 <= x < pad (d - c) bs1 ->
+  nth (Z.to_nat x) (nth (Z.to_nat i) (nth (Z.to_nat p) (c_sets trace C) []) []) zero_trace
+  = spec_cell trace S a b c d (p * bs0 + i) x.
+Proof.
+  intros Hp Hi Hx. destruct (window_facts trace S a b c d Hw) as (W1&W2&W3&W4&W5&W6&W7&W8).
+  unfold C, canon_container. cbv zeta. cbn [c_sets]. rewrite map_map. unfold canon_set. cbn [fst].
+  change (gni (win_geo a b c d)) with (b - a). change (w_n_plane_sets (b - a) bs0) with (pad (b - a) bs0 / bs0).
+  rewrite nth_map_zrange by assumption.
+  unfold canon_set_buf. rewrite nth_map_zrange by assumption.
+  unfold canon_xpad. change (gnx (win_geo a b c d)) with (d - c). rewrite nth_map_zrange by assumption.
+  unfold canon_traces. change (gnx (win_geo a b c d)) with (d - c). rewrite nth_map_zrange by lia.
+  change (gni (win_geo a b c d)) with (b - a). rewrite row_line_min by (assumption || lia).
+  reflexivity.
+Qed.
+End Closed.
+
+(* ---- the rows read by the plane sets, concatenated, are 0 .. n-1 ---- *)
+Lemma pad_ge n b : 0 < b -> 0 <= n -> n <= w_n_plane_sets n b * b.
+Proof.
+  intros Hb Hn. unfold w_n_plane_sets, pad. pose proof (Z.div_mod n b ltac:(lia)) as Hdm.
+  pose proof (Z.mod_pos_bound n b Hb) as Hm. destruct (n mod b =? 0) eqn:E.
+  - apply Z.eqb_eq in E. rewrite E in Hdm. lia.
+  - rewrite (Z.mul_comm b), Z.div_mul by lia. lia.
+Qed.
+
+Lemma flat_rows_prefix n b (k : nat) : 0 < b -> 0 < n -> Z.of_nat k <= w_n_plane_sets n b ->
+  flat_map (fun p => zrange (p * b) (p * b + w_planes_to_read n b p)) (zrange 0 (Z.of_nat k))
+  = zrange 0 (Z.min (Z.of_nat k * b) n).
+Proof.
+  intros Hb Hn. induction k as [|k IH]; intros Hk.
+  - cbn. rewrite Z.min_l by lia. reflexivity.
+  - replace (Z.of_nat (S k)) with (Z.of_nat k + 1) by lia.
+    rewrite zrange_snoc by lia. rewrite flat_map_app. cbn [flat_map]. rewrite app_nil_r.
+    rewrite IH by lia.
+    destruct (planes_to_read_range n b (Z.of_nat k) Hb Hn ltac:(lia)) as (P1&P2&P3).
+    assert (0 <= Z.of_nat k * b) by (apply Z.mul_nonneg_nonneg; lia).
+    rewrite Z.min_l by lia.
+    rewrite <- zrange_app by lia. f_equal.
+    destruct (Z.eq_dec (w_planes_to_read n b (Z.of_nat k)) b) as [E|E].
+    + rewrite E. rewrite Z.min_l by lia. ring.
+    + specialize (P3 ltac:(lia)). rewrite Z.min_r by lia. exact P3.
+Qed.
+
+Lemma flat_rows n b : 0 < b -> 0 < n ->
+  flat_map (fun p => zrange (p * b) (p * b + w_planes_to_read n b p)) (zrange 0 (w_n_plane_sets n b)) = zrange 0 n.
+Proof.
+  intros Hb Hn. pose proof (pad_ge n b Hb ltac:(lia)) as Hge.
+  assert (Hns : 0 <= w_n_plane_sets n b).
+  { unfold w_n_plane_sets. apply Z.div_pos; [|lia]. unfold pad. destruct (n mod b =? 0); [lia|].
+    apply Z.mul_nonneg_nonneg; [lia|]. assert (0 <= n / b) by (apply Z.div_pos; lia). lia. }
+  rewrite <- (Z2Nat.id (w_n_plane_sets n b)) at 1 by assumption.
+  rewrite flat_rows_prefix by lia. rewrite Z2Nat.id by assumption. rewrite Z.min_r by lia. reflexivity.
+Qed.
+
+Lemma flat_map_nil {A B} (f : A -> list B) l : (forall x, In x l -> f x = []) -> flat_map f l = [].
+Proof.
+  induction l as [|x l IH]; intros H; [reflexivity|]. cbn [flat_map]. rewrite (H x (or_introl eq_refl)), IH; [reflexivity|].
+  intros y Hy. apply H. right. exact Hy.
+Qed.
+
+Lemma flat_map_flat_map {A B C} (f : A -> list B) (g : B -> list C) l :
+  flat_map g (flat_map f l) = flat_map (fun x => flat_map g (f x)) l.
+Proof. induction l as [|x l IH]; [reflexivity|]. cbn [flat_map]. rewrite flat_map_app, IH. reflexivity. Qed.
+
+(* ---- sequential writes k = 0 .. n-1 fill the array in order ---- *)
+Lemma set_at_app_length {A} (l1 : list A) x v rest : set_at (length l1) v (l1 ++ x :: rest) = l1 ++ v :: rest.
+Proof. induction l1 as [|y l1 IH]; [reflexivity|]. cbn [length app set_at]. rewrite IH. reflexivity. Qed.
+
+Lemma apply_events_prefix (v : Z -> Z) n (k : nat) : (k <= n)%nat ->
+  fold_left (fun arr e => set_at (Z.to_nat (py_norm (Z.of_nat n) (fst e))) (Some (snd e)) arr)
+            (map (fun j => (j, v j)) (zrange 0 (Z.of_nat k))) (repeat None n)
+  = map (fun j => Some (v j)) (zrange 0 (Z.of_nat k)) ++ repeat None (n - k).
+Proof.
+  induction k as [|k IH]; intros Hk.
+  - cbn. rewrite Nat.sub_0_r. reflexivity.
+  - replace (Z.of_nat (S k)) with (Z.of_nat k + 1) by lia.
+    rewrite zrange_snoc by lia. rewrite !map_app, fold_left_app. rewrite IH by lia.
+    cbn [map fold_left fst snd]. unfold py_norm.
+    replace (Z.of_nat k <? 0) with false by (symmetry; apply Z.ltb_ge; lia). rewrite Nat2Z.id.
+    replace (n - k)%nat with (S (n - S k)) by lia. cbn [repeat].
+    replace k with (length (map (fun j => Some (v j)) (zrange 0 (Z.of_nat k)))) at 1
+      by (rewrite map_length, zrange_length; lia).
+    rewrite set_at_app_length. rewrite <- app_assoc. reflexivity.
+Qed.
+
+Lemma apply_events_seq (v : Z -> Z) n : 0 <= n ->
+  apply_events n (map (fun j => (j, v j)) (zrange 0 n)) = map (fun j => Some (v j)) (zrange 0 n).
+Proof.
+  intros Hn. unfold apply_events. pose proof (apply_events_prefix v (Z.to_nat n) (Z.to_nat n) (le_n _)) as H.
+  rewrite Z2Nat.id in H by assumption. rewrite H. rewrite Nat.sub_diag. cbn [repeat]. apply app_nil_r.
+Qed.
+
+(* ---- the headers of rows 0 .. n-1, concatenated, are the window's traces in order ---- *)
+Lemma canon_events_flat trace (Src : source trace) g (n : nat) : 0 < gnx g ->
+  flat_map (canon_events trace Src g) (zrange 0 (Z.of_nat n))
+  = map (fun k => (k, (gi0 g + k / gnx g) * s_nxl Src + (gx0 g + k mod gnx g))) (zrange 0 (Z.of_nat n * gnx g)).
+Proof.
+  intros Hx. induction n as [|n IH]; [reflexivity|].
+  replace (Z.of_nat (S n)) with (Z.of_nat n + 1) by lia.
+  rewrite zrange_snoc by lia. rewrite flat_map_app. cbn [flat_map]. rewrite app_nil_r. rewrite IH.
+  assert (0 <= Z.of_nat n * gnx g) by (apply Z.mul_nonneg_nonneg; lia).
+  rewrite (zrange_app 0 (Z.of_nat n * gnx g) ((Z.of_nat n + 1) * gnx g)) by lia.
+  rewrite map_app. f_equal.
+  unfold canon_events. rewrite (zrange_shift (Z.of_nat n * gnx g)). rewrite map_map.
+  replace ((Z.of_nat n + 1) * gnx g - Z.of_nat n * gnx g) with (gnx g) by ring.
+  apply map_ext_in. intros j Hj. apply in_zrange in Hj.
+  assert (E : j + Z.of_nat n * gnx g = gnx g * Z.of_nat n + j) by ring.
+  rewrite <- (Z.div_unique_pos _ (gnx g) (Z.of_nat n) j) by (lia || exact E).
+  rewrite <- (Z.mod_unique_pos _ (gnx g) (Z.of_nat n) j) by (lia || exact E).
+  f_equal. ring.
+Qed.
+
+Section ClosedArrays.
+Variable trace : Type.
+Variable zero_trace : trace.
+Variables (S : source trace) (a b c d : Z).
+Hypothesis Hw : window_ok trace S a b c d = true.
+Variables (bs0 bs1 : Z).
+Hypothesis Hb : 0 < bs0.
+
+Lemma canon_set_events_rows p : 0 <= p < w_n_plane_sets (b - a) bs0 ->
+  canon_set_events trace S (win_geo a b c d) bs0 true p
+  = flat_map (canon_events trace S (win_geo a b c d)) (zrange (p * bs0) (p * bs0 + w_planes_to_read (b - a) bs0 p)).
+Proof.
+  intros Hp. destruct (window_facts trace S a b c d Hw) as (W1&W2&W3&W4&W5&W6&W7&W8).
+  destruct (planes_to_read_range (b - a) bs0 p Hb ltac:(lia) Hp) as (P1&P2&P3).
+  unfold canon_set_events. change (gni (win_geo a b c d)) with (b - a).
+  set (ptr := w_planes_to_read (b - a) bs0 p) in *.
+  rewrite (zrange_app 0 ptr bs0) by lia. rewrite flat_map_app.
+  rewrite (flat_map_nil _ (zrange ptr bs0)).
+  - rewrite app_nil_r. rewrite (zrange_shift (p * bs0)). rewrite flat_map_map.
+    replace (p * bs0 + ptr - p * bs0) with (ptr - 0) by lia. replace (ptr - 0) with ptr by lia.
+    apply flat_map_ext_in. intros i Hi. apply in_zrange in Hi.
+    replace (i <? ptr) with true by (symmetry; apply Z.ltb_lt; lia). cbn [andb].
+    unfold row_line. cbv zeta. fold ptr. replace (i <? ptr) with true by (symmetry; apply Z.ltb_lt; lia).
+    f_equal. ring.
+  - intros i Hi. apply in_zrange in Hi. replace (i <? ptr) with false by (symmetry; apply Z.ltb_ge; lia). reflexivity.
+Qed.
+
+(* slot k of every stored array holds the header of the k-th trace of the window *)
+Lemma window_slots :
+  apply_events ((b - a) * (d - c))
+    (flat_map (fun s => snd s) (map (canon_set trace zero_trace S (win_geo a b c d) bs0 bs1 true)
+                                    (zrange 0 (w_n_plane_sets (b - a) bs0))))
+  = map (fun k => Some (spec_src_index trace S a c d k)) (zrange 0 ((b - a) * (d - c))).
+Proof.
+  destruct (window_facts trace S a b c d Hw) as (W1&W2&W3&W4&W5&W6&W7&W8).
+  rewrite flat_map_map. unfold canon_set. cbn [snd].
+  rewrite (flat_map_ext_in _ (fun p => flat_map (canon_events trace S (win_geo a b c d))
+                                        (zrange (p * bs0) (p * bs0 + w_planes_to_read (b - a) bs0 p)))).
+  2:{ intros p Hp. apply in_zrange in Hp. apply canon_set_events_rows. exact Hp. }
+  rewrite <- flat_map_flat_map. rewrite flat_rows by lia.
+  replace (zrange 0 (b - a)) with (zrange 0 (Z.of_nat (Z.to_nat (b - a)))) by (rewrite Z2Nat.id; [reflexivity|lia]).
+  rewrite canon_events_flat by (cbn [gnx win_geo]; lia).
+  rewrite Z2Nat.id by lia. change (gnx (win_geo a b c d)) with (d - c).
+  change (gi0 (win_geo a b c d)) with a. change (gx0 (win_geo a b c d)) with c.
+  assert (0 <= (b - a) * (d - c)) by (apply Z.mul_nonneg_nonneg; lia).
+  rewrite (apply_events_seq (fun k => (a + k / (d - c)) * s_nxl S + (c + k mod (d - c)))) by assumption.
+  reflexivity.
+Qed.
+
+(* every stored header array, entry by entry (before the 'thorough' pruning, which only drops constant arrays) *)
+Lemma closed_arrays codes m :
+  c_arrays trace (canon_container trace zero_trace codes m bs0 bs1 S (win_geo a b c d))
+  = let tbl := table0 codes m (s_hdr S 0) (s_hdr S (s_tracecount trace S - 1)) in
+    let arrays := match m with Strip => [] | _ => map (fun f => (f, spec_array trace S a b c d f)) (stored_fields tbl) end in
+    match m with Thorough => prune_arrays arrays | _ => arrays end.
+Proof.
+  unfold canon_container. cbv zeta. cbn [c_arrays].
+  change (gni (win_geo a b c d)) with (b - a). change (gnx (win_geo a b c d)) with (d - c).
+  assert (Harr : forall f, array_of trace S (map (fun k => Some (spec_src_index trace S a c d k)) (zrange 0 ((b - a) * (d - c)))) f
+                           = spec_array trace S a b c d f).
+  { intros f. unfold array_of, spec_array. rewrite map_map. reflexivity. }
+  destruct m; try rewrite window_slots; try reflexivity;
+    (erewrite map_ext; [reflexivity | intros f; cbv beta; rewrite Harr; reflexivity]).
+Qed.
+End ClosedArrays.
+
+(* ---------------------------------------------------------------- the closed form, packaged *)
+Theorem window_container_spec trace (zero_trace : trace) codes m reduce st bs0 bs1 (S : source trace) a b c d :
+  window_ok trace S a b c d = true -> 0 < bs0 ->
+  exists C, convert trace zero_trace codes m (win a b c d) reduce st bs0 bs1 S = Some (Return C) /\
+    (c_n_il trace C = b - a /\ c_n_xl trace C = d - c /\
+     c_origin_il trace C = s_il0 S + a * s_dil S /\ c_origin_xl trace C = s_xl0 S + c * s_dxl S /\
+     c_inc_il trace C = s_dil S /\ c_inc_xl trace C = s_dxl S /\
+     c_tracecount trace C = (b - a) * (d - c) /\ c_hel trace C = 4 * ((b - a) * (d - c)) /\
+     c_alloc trace C = (b - a) * (d - c)) /\
+    (forall p i x, 0 <= p < pad (b - a) bs0 / bs0 -> 0 <= i < bs0 -> 0 <= x < pad (d - c) bs1 ->
+       nth (Z.to_nat x) (nth (Z.to_nat i) (nth (Z.to_nat p) (c_sets trace C) []) []) zero_trace
+       = spec_cell trace S a b c d (p * bs0 + i) x) /\
+    c_arrays trace C
+    = (let tbl := table0 codes m (s_hdr S 0) (s_hdr S (s_tracecount trace S - 1)) in
+       let arrays := match m with Strip => [] | _ => map (fun f => (f, spec_array trace S a b c d f)) (stored_fields tbl) end in
+       match m with Thorough => prune_arrays arrays | _ => arrays end).
+Proof.
+  intros Hw Hb. exists (canon_container trace zero_trace codes m bs0 bs1 S (win_geo a b c d)).
+  split; [apply window_closed_form; assumption|].
+  split; [apply closed_scalars; assumption|].
+  split; [intros p i x; apply closed_cells; assumption|].
+  apply closed_arrays; assumption.
+Qed.
+
+Theorem window_equals_subcube_modes trace (zero_trace : trace) codes m reduce st1 st2 bs0 bs1 (S : source trace) a b c d :
+  m <> Heuristic ->
+  window_ok trace S a b c d = true -> 2 <= b - a -> 2 <= d - c -> 0 < bs0 ->
+  convert trace zero_trace codes m (win a b c d) reduce st1 bs0 bs1 S
+  = convert trace zero_trace codes m no_window reduce st2 bs0 bs1 (restrict trace S a b c d).
+Proof. intros Hm Hw H1 H2 Hb. apply window_equals_subcube; try assumption. apply tables_agree_other. exact Hm. Qed.
